@@ -136,6 +136,29 @@ pub fn large_docs() -> Vec<Doc> {
         docs.push(make_doc(Format::Csi, "csi-large-aux-names", "large", ok("csi finish", w.into_inner().finish()), false));
     }
 
+    // CRAM with three data containers at the default layout (10240 records per container): 10 500 pairs of
+    // 10-base reads on sq0. Record counter 20480 and base count 102400 take 3 LTF8 bytes, the external blocks
+    // exceed 2^14 bytes (3 ITF8 bytes): no small document has a multi-byte bookkeeping field.
+    {
+        let mut text = String::from("@HD\tVN:1.6\tSO:unsorted\n@SQ\tSN:sq0\tLN:400\n@SQ\tSN:sq1\tLN:300\n");
+        for i in 0..10_500usize {
+            let a = 1 + i * 300 / 10_500;
+            let b = a + 30;
+            text.push_str(&format!("p{i}\t99\tsq0\t{a}\t60\t10M\t=\t{b}\t40\tACGTACGTAC\tIIIIIIIIII\n"));
+            text.push_str(&format!("p{i}\t147\tsq0\t{b}\t60\t10M\t=\t{a}\t-40\tTTGGCCAATT\tIIIIIIIIII\n"));
+        }
+        let mut r = sam::io::Reader::new(text.as_bytes());
+        let header = ok("cram-large header", r.read_header());
+        let recs = ok("cram-large records", r.record_bufs(&header).collect::<io::Result<Vec<_>>>());
+        let mut w = cram::io::writer::Builder::default().set_reference_sequence_repository(vnd::records::repository()).build_from_writer(Vec::new());
+        ok("cram-large write header", w.write_header(&header));
+        for rec in &recs {
+            ok("cram-large write record", w.write_alignment_record(&header, rec));
+        }
+        ok("cram-large finish", w.try_finish(&header));
+        docs.push(make_doc(Format::Cram, "cram-large-3-containers", "large", w.into_inner(), false));
+    }
+
     // crai / fai / gzi with thousands of entries
     let crai: Vec<cram::crai::Record> =
         (0..3000).map(|i| cram::crai::Record::new(Some(i % 3), Position::new(i + 1), 10 + i % 7, 1000 + 50 * i as u64, 100 + (i % 13) as u64, 300)).collect();
